@@ -4,8 +4,11 @@
 //! A harness installs a plain function pointer of its controlled scheduler. `point` marks a place
 //! where the calling thread may be descheduled (always immediately *before* a lock acquisition or
 //! an atomic operation, never inside a critical section). `nm_impl` never blocks on anything but
-//! its registry locks, so no modelled waits are needed. Without an installed hook `point` is a
-//! no-op.
+//! its registry locks. A harness that also installs `block_until` turns every registry lock
+//! acquisition into a *modelled* wait (a `try_read` / `try_write` loop under the harness
+//! scheduler); only then may a thread be descheduled while it holds one of these locks, which is
+//! what the `point_in_section` points inside `ObservationBagSync::snapshot` (a report runs under the
+//! registry read lock) need. Without an installed hook every function is a no-op.
 
 #![allow(missing_docs, missing_debug_implementations, unreachable_pub, clippy::exhaustive_structs, reason = "verification-only")]
 
@@ -14,6 +17,9 @@ use std::sync::OnceLock;
 #[derive(Clone, Copy)]
 pub struct Hooks {
     pub point: fn(&'static str),
+    /// Modelled wait of the harness scheduler. `None`: the registry locks block for real and the
+    /// points inside critical sections are disabled.
+    pub block_until: Option<fn(&'static str, &mut dyn FnMut() -> bool)>,
 }
 
 static HOOKS: OnceLock<Hooks> = OnceLock::new();
@@ -28,6 +34,22 @@ pub(crate) fn point(label: &'static str) {
     if let Some(h) = HOOKS.get() {
         (h.point)(label);
     }
+}
+
+/// A point inside a critical section of a registry lock: only active when the lock waits are
+/// modelled (`Hooks::block_until`), because a descheduled thread must never hold a lock that other
+/// threads block on for real.
+#[inline]
+pub(crate) fn point_in_section(label: &'static str) {
+    if let Some(h) = HOOKS.get() {
+        if h.block_until.is_some() {
+            (h.point)(label);
+        }
+    }
+}
+
+fn modelled_wait() -> Option<fn(&'static str, &mut dyn FnMut() -> bool)> {
+    HOOKS.get().and_then(|h| h.block_until)
 }
 
 /// `RwLock` stand-in used by the registries under `cfg(folo_verif)`: every outermost acquisition is
@@ -63,9 +85,25 @@ impl<T> RwLock<T> {
         if depth_add(0) == 0 {
             point("rwlock.read");
         }
-        let r = match self.0.read() {
-            Ok(g) => Ok(ReadGuard(g)),
-            Err(p) => Err(std::sync::PoisonError::new(ReadGuard(p.into_inner()))),
+        let r = if let Some(block_until) = modelled_wait() {
+            let mut result = None;
+            block_until("rwlock.read", &mut || match self.0.try_read() {
+                Ok(g) => {
+                    result = Some(Ok(ReadGuard(g)));
+                    true
+                }
+                Err(std::sync::TryLockError::WouldBlock) => false,
+                Err(std::sync::TryLockError::Poisoned(p)) => {
+                    result = Some(Err(std::sync::PoisonError::new(ReadGuard(p.into_inner()))));
+                    true
+                }
+            });
+            result.expect("block_until returns only after the condition held")
+        } else {
+            match self.0.read() {
+                Ok(g) => Ok(ReadGuard(g)),
+                Err(p) => Err(std::sync::PoisonError::new(ReadGuard(p.into_inner()))),
+            }
         };
         depth_add(1);
         r
@@ -75,9 +113,25 @@ impl<T> RwLock<T> {
         if depth_add(0) == 0 {
             point("rwlock.write");
         }
-        let r = match self.0.write() {
-            Ok(g) => Ok(WriteGuard(g)),
-            Err(p) => Err(std::sync::PoisonError::new(WriteGuard(p.into_inner()))),
+        let r = if let Some(block_until) = modelled_wait() {
+            let mut result = None;
+            block_until("rwlock.write", &mut || match self.0.try_write() {
+                Ok(g) => {
+                    result = Some(Ok(WriteGuard(g)));
+                    true
+                }
+                Err(std::sync::TryLockError::WouldBlock) => false,
+                Err(std::sync::TryLockError::Poisoned(p)) => {
+                    result = Some(Err(std::sync::PoisonError::new(WriteGuard(p.into_inner()))));
+                    true
+                }
+            });
+            result.expect("block_until returns only after the condition held")
+        } else {
+            match self.0.write() {
+                Ok(g) => Ok(WriteGuard(g)),
+                Err(p) => Err(std::sync::PoisonError::new(WriteGuard(p.into_inner()))),
+            }
         };
         depth_add(1);
         r
